@@ -74,6 +74,19 @@ def run(chk):
             df.index = [f"tcr{i}" for i in range(n)]
         elif kind == "duplicated":
             df.index = [i // 2 for i in range(n)]
+        # a NAMED index, also one whose name is that of a column (set_index(col, drop=False), index.name = "TRAV"), and tables that already
+        # carry CDR1x / CDR2x columns (from an earlier export) which no longer match the V alleles: the loops come from the V allele
+        nm = rng.random()
+        if nm < 0.15:
+            df.index.name = rng.choice(["TRAV", "CDR3B", "clone_count", "sample"])
+            kind = kind + "+index-named-" + df.index.name
+        elif nm < 0.25 and kind.split("+")[0] != "duplicated":
+            df = df.set_index("CDR3B", drop=False)
+            kind = kind + "+index-is-column"
+        if rng.random() < 0.2:
+            for col in rng.sample(["CDR1A", "CDR2A", "CDR1B", "CDR2B"], rng.randint(2, 4)):
+                df[col] = [rng.choice(["SSYSPS", "YTSAATLV", "", "QQQ"]) for _ in range(len(df))]
+            kind = kind + "+stale-cdr-columns"
         # column dtypes: plain objects, pandas categoricals, the nullable string dtype - values are what counts, and the caller's
         # table (dtypes included) must come back untouched
         dt = rng.choice(["object", "object", "category", "string"])
@@ -97,13 +110,15 @@ def run(chk):
         cname = rng.choice(list(CLASSES))
         chain, cdr, allowed = CLASSES[cname]
         w = {"iw": 1, "dw": 1, "sw": 1, "aw": 1, "bw": 1, "c1": 1, "c2": 1, "c3": 1}
-        mode = rng.choice(["default", "one", "joint"])
+        mode = rng.choice(["default", "one", "joint", "uniform"])
         if mode == "one":
             k = rng.choice(allowed)
             w[k] = rng.randint(2, 7)
         elif mode == "joint":
             for k in allowed:
                 w[k] = rng.randint(1, 6)
+        elif mode == "uniform":
+            w["iw"] = w["dw"] = w["sw"] = rng.choice([2, 3, 5])       # equal edit weights other than 1 scale every distance
         kwargs = {KW[k]: w[k] for k in allowed if w[k] != 1 or rng.random() < 0.3}
         metric = getattr(tm, cname)(**kwargs)
         A, ka = table(rng.randint(1, 12))
